@@ -163,6 +163,18 @@ class _Pending:
 
 PENDING = _Pending()
 
+class _Caught:
+    """
+    Marks a Map/Parallel result slot whose Branch/Iteration failed, had the
+    failure caught inside the Branch and is carrying on with the Catcher's
+    Next state. A dedicated object rather than a string, because any string
+    is a perfectly valid Branch/Iteration output.
+    """
+    def __repr__(self):
+        return "<CAUGHT>"
+
+CAUGHT = _Caught()
+
 class BranchMetadata:
     def __init__(self, context, timeout):
         """
@@ -1074,7 +1086,7 @@ class StateEngine(object):
 
                 # Check if all outstanding branches have been terminated
                 for i in range(start, end):
-                    if result[i] is PENDING or result[i] == "__CAUGHT__":
+                    if result[i] is PENDING or result[i] is CAUGHT:
                         """
                         If there isn't a result for this branch check if there
                         are pending Tasks, if there are then cancel the Task.
@@ -1840,7 +1852,7 @@ class StateEngine(object):
                                         if parent_res_id in abr:
                                             branch_results = abr[parent_res_id]
                                             results = branch_results["results"]
-                                            results[index] = "__CAUGHT__"
+                                            results[index] = CAUGHT
 
                         break
 
@@ -3547,10 +3559,10 @@ class StateEngine(object):
             else:
                 end = len(result)
 
-            if not error and (PENDING in result or "__CAUGHT__" in result):
+            if not error and (PENDING in result or CAUGHT in result):
                 if max_concurrency:
                     partial = result[start:end]
-                    if not (PENDING in partial or "__CAUGHT__" in partial):
+                    if not (PENDING in partial or CAUGHT in partial):
                         """
                         If we've got all results for a batch of max_concurrency
                         send an event to re-enter the Map state and trigger
